@@ -208,3 +208,82 @@ def check_c11(out, tier, seed):
 
 CHECKS["C11"] = check_c11
 LEVEL["C11"] = "model_checking"
+
+
+VERSION_CFG = """SPECIFICATION Spec
+CONSTRAINT Emit
+INVARIANT Agrees
+PROPERTY FailStutters
+CHECK_DEADLOCK FALSE
+"""
+
+
+def check_c13(out, tier, seed):
+    """Version inference: operational = declarative on the spec for every order of <= D line
+    kinds; every such order replayed incrementally, through Gfa(list/str) and from_file."""
+    import os, random
+    from . import core as c, tlc
+    rnd = random.Random(seed)
+    depth = 3 if tier == "quick" else 4
+    cat = c.CATALOGUES["ver"]
+    ops = [o for o in c.build_ops(cat) if o["k"] == "add"]
+    jobs = []
+    sp = [0, 0]
+    nseq = 0
+    for cfgv in ("none", "gfa1", "gfa2"):
+        for vlevel in ((1,) if tier == "quick" else (1, 3)):
+            wd = tlc.workdir("ver-%s-%d" % (cfgv, vlevel))
+            cj, _ = c.catalog_json("ver", depth, cfgv, vlevel, ops)
+            cf = os.path.join(wd, "catalog.json")
+            with open(cf, "w") as f:
+                json.dump(cj, f)
+            rc, o = tlc.run_tlc("MC_Version", VERSION_CFG, wd, env={"CATALOG_FILE": cf}, workers=tlc.NCPU, heap="6g")
+            tlc.check_ok(rc, o, "MC_Version %s" % cfgv)
+            st = tlc.stats(o)
+            sp[0] += st[0]
+            sp[1] += st[1]
+            seqs = sorted({tuple(x - 1 for x in tlc.tla_value(r)[1]) for r in tlc.parse_tuples(o, "H")})
+            nseq += len(seqs)
+            flush = dict(k="flush", text="", id="", id2="")
+            entries = ["list"] if tier == "quick" else ["list", "str", "file", "filecrlf"]
+            for n, h in enumerate(seqs):
+                texts = [ops[i]["text"] for i in h]
+                # incremental (every sequence), maximal ones only would lose the refusals: keep all
+                jobs.append(dict(id="vi-%s-%d-%d" % (cfgv, vlevel, n), kind="ver", cfg=dict(version=cfgv, vlevel=vlevel),
+                                 ops=[ops[i] for i in h] + [flush], universe=["A", "a"]))
+                if tier != "quick" or n % 3 == seed % 3:
+                    for en in entries:
+                        jobs.append(dict(id="vl-%s-%s-%d-%d" % (en, cfgv, vlevel, n), kind="ver",
+                                         cfg=dict(version=cfgv, vlevel=vlevel),
+                                         ops=[dict(k="load", text="", id=en, id2="", texts=texts,
+                                                   cfgversion=None if cfgv == "none" else cfgv)],
+                                         universe=["A", "a"]))
+    traces = c.replay_all(jobs)
+    r = c.validate(traces, "val-C13")
+    by_id = r["by_id"]
+    for tid, ev, clauses, phase in r["rejects"]:
+        t = by_id[tid]
+        props = c.attribute(clauses, "ver")
+        if "C13" in props:
+            out.violations.append(dict(family="core", clauses=[x for x in clauses if c.CLAUSE_PROP.get(x) == "C13"],
+                                       all_clauses=clauses, event=ev, trace=tid, cfg=t["cfg"], ops=t["src"][:ev],
+                                       res=[e["res"] for e in t["ev"][:ev]],
+                                       what="clauses %s at call %d" % (",".join(clauses), ev)))
+        for pp in props - {"C13"}:
+            out.others[pp] = out.others.get(pp, 0) + 1
+    out.add_cov(states=sp[1] + r["states"], transitions=sp[0] + r["states"], spec_states=sp[1], spec_sequences=nseq,
+                traces_validated_against_impl=len(traces), events_validated=r["states"],
+                evaluations=len(traces), distinct_nontrivial=len(traces), exhaustive=True, max_lines=depth,
+                rule="every sequence of <= %d distinct line kinds over the 16 kinds of the 'ver' catalogue "
+                     "(H without VN, H VN 1.0/2.0/3.0, S GFA1/GFA2 syntax, L C P E F G O U, custom, comment), cut at "
+                     "the first refusal, for Gfa(version=None|gfa1|gfa2); each replayed incrementally "
+                     "(add_line + process_line_queue) and through whole-document entry points" % depth)
+    for t in traces[:2] + traces[-2:]:
+        out.samples.append({"trace": t["id"], "cfg": t["cfg"],
+                            "calls": [[o["k"], o.get("text") or o.get("texts") or "", e["res"]] for o, e in zip(t["src"], t["ev"])]})
+    out.assumptions += ["TLC; spec/Version.tla (declarative) and the Add/ProcessQueue machine of spec/Gfa.tla",
+                        "vlevel 0 is excluded for the VN cross-check (documented to skip checks)"]
+
+
+CHECKS["C13"] = check_c13
+LEVEL["C13"] = "model_checking"
